@@ -231,6 +231,8 @@ def compare(d):
     compared = 0
     spec_ok = 0
     inconclusive = 0
+    inconclusive_keys = set()
+    decided_keys = set()
     notes = []
     pairs_total = 0
     distinct = set()
@@ -252,11 +254,14 @@ def compare(d):
                 mi += 1
                 if v.startswith("S ok"):
                     spec_ok += 1
+                    if v.startswith("S ok trackA decides"):
+                        decided_keys.add((case, tuple(str(last_op).split()[1:])))
                     m_ = re.search(r"pairs=(\d+)", v)
                     if m_:
                         pairs_total += int(m_.group(1))
                 elif v.startswith("S inconclusive"):
                     inconclusive += 1
+                    inconclusive_keys.add((case, tuple(str(last_op).split()[1:])))
                 elif v.startswith("S note"):
                     notes.append(v[7:])
                 else:
@@ -268,6 +273,7 @@ def compare(d):
         mismatches.append({"case": case, "op": "<end>", "op_line": len(ops), "real": "<end of expectations>",
                            "model": f"{len(model) - mi} extra model lines, first: {model[mi] if mi < len(model) else ''}"})
     return {"compared": compared, "mismatches": mismatches, "spec_fail": spec_fail, "spec_ok": spec_ok, "inconclusive": inconclusive, "pairs_total": pairs_total, "notes": notes,
+            "decided_by_theorem": len(decided_keys), "inconclusive_undecided": len(inconclusive_keys - decided_keys),
             "distinct": len(distinct), "case_start": case_start, "ops": ops}
 
 
